@@ -243,10 +243,39 @@ type gates struct {
 	mu      sync.Mutex
 	records []park // record-only points (reported under the state lock)
 	free    bool   // true: do not block (used while the keeper winds down)
+	// StartStopStart schedule
+	holdSpawn chan struct{}
+	spawned   int
+	alive     int // plotter goroutines between their "start" and "exit" points
+	maxAlive  int
 }
 
 func (g *gates) fn(point, sid string, m bool) {
+	if point == "spawn" {
+		// the plotter goroutine exists but has not joined the keeper's wait group yet: held only by the
+		// StartStopStart schedule
+		g.mu.Lock()
+		hold := g.holdSpawn
+		g.spawned++
+		g.mu.Unlock()
+		if hold != nil {
+			<-hold
+		}
+		return
+	}
 	if g.free {
+		if point == "start" || point == "exit" {
+			g.mu.Lock()
+			if point == "start" {
+				g.alive++
+			} else {
+				g.alive--
+			}
+			if g.alive > g.maxAlive {
+				g.maxAlive = g.alive
+			}
+			g.mu.Unlock()
+		}
 		return
 	}
 	if point == "step1" || point == "step3" {
@@ -472,6 +501,10 @@ func run(sc vh.Scenario, dir string, rec *vh.Rec) {
 	d.project(ev0)
 	rec.Emit(ev0)
 
+	if mode, _ := sc.Opt["mode"].(string); mode == "startstopstart" {
+		d.startStopStart(rec)
+		rec.DoneAndExit(9)
+	}
 	if mode, _ := sc.Opt["mode"].(string); mode == "conc" {
 		d.concurrent(sc, rec, rng)
 		rec.DoneAndExit(9)
@@ -795,6 +828,71 @@ func run(sc vh.Scenario, dir string, rec *vh.Rec) {
 			}
 		}
 	}
+}
+
+// startStopStart: the keeper is stopped before its freshly spawned plotter goroutine has run a single instruction, and
+// started again.  Stop must not return while a plotter goroutine of the stopped run is still to come to life, and there
+// must never be two plotters.
+func (d *drv) startStopStart(rec *vh.Rec) {
+	sk, g := d.sk, d.g
+	ev := vh.Event{"step": 1, "a": "StartStopStart"}
+	rec.Begin(ev)
+	hold := make(chan struct{})
+	g.mu.Lock()
+	g.free, g.holdSpawn = true, hold
+	g.mu.Unlock()
+	sk.Start()
+	waitN := func(n int) bool {
+		for i := 0; i < 2000; i++ {
+			g.mu.Lock()
+			k := g.spawned
+			g.mu.Unlock()
+			if k >= n {
+				return true
+			}
+			time.Sleep(time.Millisecond)
+		}
+		return false
+	}
+	ev["spawned1"] = waitN(1)
+	stopped := make(chan string, 1)
+	go func() { r, _ := call(func() error { return sk.Stop() }); stopped <- r }()
+	early := false
+	select {
+	case <-stopped:
+		early = true // Stop returned although the plotter goroutine of this run has not even begun
+	case <-time.After(300 * time.Millisecond):
+	}
+	ev["stop_returned_before_plotter_ran"] = early
+	if early {
+		sk.Start()
+		ev["spawned2"] = waitN(2)
+	}
+	g.mu.Lock()
+	g.holdSpawn = nil
+	g.mu.Unlock()
+	close(hold)
+	if !early {
+		select {
+		case r := <-stopped:
+			ev["stop"] = r
+		case <-time.After(callTimeout):
+			ev["stop"] = "hang"
+		}
+		sk.Start()
+	}
+	time.Sleep(200 * time.Millisecond)
+	g.mu.Lock()
+	ev["plotters_alive"], ev["max_plotters_alive"] = g.alive, g.maxAlive
+	g.mu.Unlock()
+	r, _ := call(func() error { return sk.Stop() })
+	ev["final_stop"] = r
+	time.Sleep(100 * time.Millisecond)
+	g.mu.Lock()
+	ev["plotters_after_stop"] = g.alive
+	g.mu.Unlock()
+	ev["res"] = "ok"
+	rec.Emit(ev)
 }
 
 // concurrent: several callers issue the scenario's requests at the same time while the plotter runs freely and
